@@ -517,10 +517,10 @@ pub fn run(rep: &mut Report) {
     rep.assume("trigger decisions are taken from a recording wrapper around the real trigger (their correctness is C06/C16/C17's business)");
     rep.assume("histories have at most a few hundred records; the time trigger runs on the driven clock only");
     let thorough = rep.tier == "thorough";
-    run_cases(rep, "single", if thorough { 12_000 } else { 700 }, single_history);
+    run_cases(rep, "single", if thorough { 15_000 } else { 2_500 }, single_history);
     let saved = std::env::var("L4V_JOBS").ok();
     std::env::set_var("L4V_JOBS", "4");
-    run_cases(rep, "concurrent", if thorough { 400 } else { 30 }, concurrent_run);
+    run_cases(rep, "concurrent", if thorough { 400 } else { 60 }, concurrent_run);
     match saved {
         Some(v) => std::env::set_var("L4V_JOBS", v),
         None => std::env::remove_var("L4V_JOBS"),
